@@ -1,6 +1,8 @@
 """Shared pieces of the SpectrumResult drivers (C06, C09, C10, C11, C14, C20)."""
 from __future__ import annotations
 
+import json
+
 from .. import common, resultcases as rc, tlc
 
 
@@ -13,13 +15,23 @@ def grid_cases(tag, emit=True):
 
 
 def hist_cases(tag, maxhist, simulate=None, depth=None, seed=None):
+    # simulation: `num` is per worker and invariants (hence Emit) are evaluated on every candidate successor,
+    # so a few dozen traces on one worker already yield hundreds of distinct full-length histories
     res = tlc.run_model("Result", tag, constants=dict(Scope="hist", MaxHist=maxhist, EmitCases=True),
-                        invariants=rc.RESULT_INVARIANTS, timeout=3600, simulate=simulate, depth=depth, seed=seed)
+                        invariants=rc.RESULT_INVARIANTS, timeout=3600, simulate=simulate, depth=depth, seed=seed,
+                        workers=(1 if simulate else "auto"))
     if res.violated:
         raise tlc.TLCError(f"Result.tla (hist) violates its own invariant {res.violated}")
     js = res.json_prints()
     results = {j["rid"]: j["res"] for j in js if j.get("kind") == "res"}
-    hists = [(j["rid"], j["hist"]) for j in js if j.get("kind") == "hist"]
+    seen = set()
+    hists = []
+    for j in js:
+        if j.get("kind") == "hist":
+            key = (j["rid"], json.dumps(j["hist"], sort_keys=True))
+            if key not in seen:
+                seen.add(key)
+                hists.append((j["rid"], j["hist"]))
     return res, results, hists
 
 
@@ -60,7 +72,7 @@ def trace_specs(tier, seed, variants_of, n_quick=10, n_thorough=80, backends=("n
     for i in range(n):
         sch = SCHEDS[i % 4]
         specs.append(dict(seed=rnd.randrange(2 ** 31), N=rnd.choice([3000, 6000] if tier == "quick" else [3000, 8000, 20000]), fs=rnd.choice([1.0, 2.0, 250.0]),
-                          data=rnd.choice(["delay_coupled", "filtered", "independent", "gain_noise"]), sched=sch, win=WINS[(i // 4) % 4],
+                          data=rnd.choice(["delay_coupled", "filtered", "independent", "gain_noise", "offset", "offset"]), sched=sch, win=WINS[(i // 4) % 4],
                           order=rnd.choice([-1, 0, 1, 2]), backend=backends[i % len(backends)], Jdes=rnd.choice([30, 60]), Kdes=rnd.choice([5, 20]),
                           Lmin=1 if sch == "lpsd" else rnd.choice([1, 64]), psll=rnd.choice([60, 120, 200]), variants=variants_of(rnd)))
     return specs
